@@ -501,8 +501,8 @@ def run(ctx):
         return
     q = ctx.quick
     batch = Batch(ctx)
-    specs = [("enc", 150 if q else 4000), ("frame", 40 if q else 1000), ("stmt", 110 if q else 2500),
-             ("v0", 14 if q else 300), ("v1", 10 if q else 220)]
+    specs = [("enc", 150 if q else 4000), ("frame", 40 if q else 1000), ("stmt", 110 if q else 4000),
+             ("v0", 14 if q else 600), ("v1", 10 if q else 400)]
     res = harness_rows(ctx, binp, specs)
     for m, _ in specs:
         rc, rows, out = res[m]
